@@ -17,8 +17,8 @@ import re
 from harness import absval, core, repo
 from harness.repo import Cell
 
-# node k (1-based) -> (sheet index, col0, row0); nodes 1..3 are contiguous in column A of S1
-POS = {1: (0, 0, 0), 2: (0, 0, 1), 3: (0, 0, 2), 4: (1, 1, 0), 5: (1, 1, 1), 6: (0, 2, 0), 7: (0, 2, 1), 8: (1, 0, 3)}
+# node k (1-based) -> (sheet index, col0, row0); nodes 1..3 are contiguous in column A of S1, nodes 6..7 in row 1 across the Z / AA boundary
+POS = {1: (0, 0, 0), 2: (0, 0, 1), 3: (0, 0, 2), 4: (1, 1, 0), 5: (1, 1, 1), 6: (0, 25, 0), 7: (0, 26, 0), 8: (1, 0, 3)}     # 6, 7: Z1 and AA1
 TITLES = ['S1', "Sh 2"]
 PRIMES = {1: 2, 2: 3, 3: 5, 4: 7, 5: 11, 6: 13, 7: 17, 8: 19}
 MEMBER = re.compile(r'^    def (_\d+_\d+_\d+)\(self\):', re.M)
@@ -51,6 +51,11 @@ def formula(n, deps, salt):
         rng_txt = f'{a}:{b}'
         terms.append(f'SUM({rng_txt})' if mode == 0 else f'COUNT({rng_txt})*10' if mode == 1 else f'SUM({rng_txt},0)')
         rest = [d for d in rest if d not in run]
+    # nodes 6 and 7 (Z1, AA1) may be mentioned as the row area Z1:AA1 (one-letter to two-letter columns)
+    if 6 in rest and 7 in rest and mode in (0, 2, 4) and n not in (6, 7):
+        a, b = ref(6, own, salt), ref(7, own, salt + 1).split('!')[-1]
+        terms.append(f'SUM({a}:{b})')
+        rest = [d for d in rest if d not in (6, 7)]
     for i, d in enumerate(rest):
         f = salt + i * 3 + n
         m = (salt + i + n) % 6
